@@ -172,7 +172,20 @@ func checkStep(t *T, cfg stepCfg, in []rec) {
 		for _, e := range rest {
 			got[e.K] = e.V
 		}
+		// fields the record has come first, so that the outputs of a field it lacks (not determined) are told
+		// apart from those of a present field whose name merely starts with the same text (x vs x_a)
+		ordered := make([]string, 0, len(cfg.fields))
 		for _, f := range cfg.fields {
+			if r.has(f) {
+				ordered = append(ordered, f)
+			}
+		}
+		for _, f := range cfg.fields {
+			if !r.has(f) {
+				ordered = append(ordered, f)
+			}
+		}
+		for _, f := range ordered {
 			h := hists[keyText(key)+"\x1e"+f]
 			// position of this record within the group
 			pos := 0
